@@ -325,6 +325,13 @@ FAMILY = [
                     'attrs': []},
                    {'t': 'ChangeField', 'model': 'Alpha', 'field': 'notes', 'ftype': None, 'initial': None,
                     'attrs': [['null', 'false']]}]},
+    # a mutation the backend cannot apply at all (table comments on SQLite) next to a mutation that leaves a
+    # residual difference: the run must be refused, whatever the reason given
+    {'spec0': _two(), 'valid': [_ADD], 'perturbation': 'family:unsupported Meta property next to a misnamed AddField',
+     'evolution': [dict(_ADD, field='y'),
+                   {'t': 'ChangeMeta', 'model': 'Alpha', 'prop': 'db_table_comment', 'py_value': 'shelf of things'}]},
+    {'spec0': _two(), 'valid': [_ADD], 'perturbation': 'family:unsupported Meta property next to a dropped AddField',
+     'evolution': [{'t': 'ChangeMeta', 'model': 'Alpha', 'prop': 'db_table_comment', 'py_value': 'shelf of things'}]},
 ]
 
 
